@@ -18,9 +18,11 @@ import time
 
 VERIF = os.path.dirname(os.path.dirname(os.path.abspath(__file__)))
 COQ = os.path.join(VERIF, "coq")
-HARNESS = os.path.join(VERIF, "harness")
+# VERIF_HARNESS / VERIF_TARGET: development only (mutation runs against a scratch worktree of /repo
+# with a scratch copy of the harness); the registered checks never set them.
+HARNESS = os.environ.get("VERIF_HARNESS") or os.path.join(VERIF, "harness")
 CACHE = os.path.join(VERIF, ".cache")
-TARGET = os.path.join(CACHE, "target")
+TARGET = os.environ.get("VERIF_TARGET") or os.path.join(CACHE, "target")
 CASES = os.path.join(CACHE, "cases")
 EVIDENCE = os.path.join(VERIF, "evidence")
 REPLAYS = os.path.join(VERIF, "replays")
